@@ -3,6 +3,7 @@
 #include "../mc/common.hpp"
 #include "keyspace.hpp"
 #include "cpgm.h"
+#include "pgm/pgm_index.hpp"   // oracle only (size of the C++ index with the same parameters); every call under test goes through cpgm.h
 #include <map>
 
 extern "C" int omp_get_num_procs(void) noexcept { return 1; }
@@ -87,7 +88,17 @@ struct Explorer {
             }
             if (err) run.violation(cs + " q=" + mc::key_str(q), std::string(err) + " (lo " + std::to_string(r.lo) + " hi " + std::to_string(r.hi) + ")");
         }
-        (void) A::bytes(ix);
+        {   // the wrapper builds the same index as the C++ class with that Epsilon (and EpsilonRecursive 4): same size in bytes
+            size_t got = A::bytes(ix), want = 0;
+            auto cpp = [&](auto tag) { pgm::PGMIndex<T, decltype(tag)::value, 4> ref(data.begin(), data.end()); return ref.size_in_bytes(); };
+            switch (eps) {
+                case 1: want = cpp(std::integral_constant<size_t, 1>{}); break; case 2: want = cpp(std::integral_constant<size_t, 2>{}); break;
+                case 3: want = cpp(std::integral_constant<size_t, 3>{}); break; case 64: want = cpp(std::integral_constant<size_t, 64>{}); break;
+                case 300: want = cpp(std::integral_constant<size_t, 300>{}); break; case 1000: want = cpp(std::integral_constant<size_t, 1000>{}); break;
+                case 4096: want = cpp(std::integral_constant<size_t, 4096>{}); break; default: want = got;
+            }
+            if (got != want) run.violation(cs, "the index behind the C handle takes " + std::to_string(got) + " bytes, the C++ index with the same epsilon " + std::to_string(want));
+        }
         A::destroy(ix);
         // the same data with the reserved value in it must be rejected
         if (data.size() <= 8) {
@@ -381,10 +392,10 @@ template<typename T> void run_task(Run &run, Cn &cn, const Task &t, bool thoroug
 #ifdef VERIF_ASAN
         light = !thorough;
 #endif
-        for (long w = t.first_op; w < (light ? t.first_op + 1 : 256); w += 16) for (size_t e : {size_t(1), size_t(2), size_t(3), size_t(64)}) {
+        for (long w = t.first_op; w < (light ? t.first_op + 1 : 256); w += 16) for (size_t e : {size_t(1), size_t(2), size_t(3), size_t(64), size_t(300), size_t(1000)}) {
             if (light && e != 1 && e != 64) continue;
             if (run.deadline_passed()) return;
-            ks::FamilySpec s; s.kind = "density"; s.chunks = 1; s.rep = e >= 64 ? 60 : 300; s.width = 4; s.word = w;
+            ks::FamilySpec s; s.kind = "density"; s.chunks = 1; s.rep = e >= 300 ? 30 : e >= 64 ? 60 : 300; s.width = 4; s.word = w;
             ex.static_family(s, e);
         }
     } else if (t.kind == 2) {
@@ -464,7 +475,7 @@ int main(int argc, char **argv) {
     });
     mc::Run::EvidenceExtra ev;
     ev.states_counter = "static_indexes_created"; ev.transitions_counter = "static_searches_checked"; ev.nontrivial_counter = "arrays_with_2plus_distinct_keys"; ev.eval_counter = "dynamic_steps_checked";
-    ev.rule = "static part: every non-decreasing array of length 1.." + std::to_string(N) + " over four palettes for int32/int64/uint32/uint64, run-time epsilon in {1,2,3,64,4096}, all alphabet queries, plus the two-block grammar for epsilon {1,3,64} and the density family (about 1200 segments, several levels) for epsilon {1,2,3,64}; create must return NULL exactly when the reserved value is present. "
+    ev.rule = "static part: every non-decreasing array of length 1.." + std::to_string(N) + " over four palettes for int32/int64/uint32/uint64, run-time epsilon in {1,2,3,64,4096}, all alphabet queries, plus the two-block grammar for epsilon {1,3,64} and the density family (about 1200 segments, several levels) for epsilon {1,2,3,64,300,1000}; the size in bytes reported through the C handle equals that of the C++ PGMIndex with the same Epsilon; create must return NULL exactly when the reserved value is present. "
               "dynamic part: every history of length " + std::to_string(D) + " of insert_or_assign/erase over 4 colliding keys x 2 values from create_empty, length " + std::to_string(D - 2) + " from every create() of <= 3 sorted pairs, and length " + std::to_string(Ddeep) +
               " from two deep states (create of 600 pairs + 585 / 584 inserts, so that the next / the one after the next operation finds the buffer full and merges it into level 4), every three-stage script over a three-level state (create of 5000 pairs in level 5, two buffer flushes into level 4, an insert/erase/no-op on two bulk-loaded keys before, between and after the flushes), and short histories from a huge state (create of 2^21+1 pairs, which lands in a level that owns a PGM-index with the default parameters, followed by 40 consecutive erases); after every step find, lower_bound + iterator_next, begin + iterator_next to exhaustion and size are compared with std::map. Only functions of cpgm.h are called. "
               "States = static indexes built (dynamic steps are reported as evaluations); non-trivial = at least two distinct keys.";
